@@ -4,6 +4,7 @@ import (
 	"bytes"
 	"fmt"
 	"io"
+	"reflect"
 	"testing/iotest"
 
 	"github.com/kstenerud/go-concise-encoding/ce"
@@ -48,12 +49,37 @@ type C16Case struct {
 
 var c16Kinds = []string{"cbe-marshaler", "cte-marshaler", "cbe-unmarshaler", "cte-unmarshaler", "cbe-decoder", "cte-decoder", "cbe-encoder", "cte-encoder", "rules"}
 
+// types registered in the configuration of every C16 instance: a record type and a custom binary
+// converter. What a failed call cleans up must not include what the configuration registered.
+type C16Rec struct {
+	A int
+	B string
+}
+type C16Custom struct {
+	X uint8
+	Y uint8
+}
+
 func (c *C16Case) config() *configuration.Configuration {
 	cfg := configuration.New()
 	cfg.Rules.MaxDocumentSizeBytes = uint64(c.MaxDoc)
 	cfg.Rules.MaxContainerDepth = uint64(c.MaxDepth)
+	cfg.Iterator.RecordTypes[reflect.TypeOf(C16Rec{})] = "rec"
+	cfg.Iterator.CustomBinaryConverters[reflect.TypeOf(C16Custom{})] = func(v reflect.Value) (uint64, []byte, error) {
+		x := v.Interface().(C16Custom)
+		return 7, []byte{x.X, x.Y}, nil
+	}
 	return cfg
 }
+
+// values of the registered types (marshaler histories)
+var c16RegisteredValues = map[string]func() interface{}{
+	"registered-record":        func() interface{} { return C16Rec{A: 5, B: "x"} },
+	"registered-record-slice":  func() interface{} { return []C16Rec{{A: 1, B: "a"}, {A: 2, B: "b"}} },
+	"registered-custom":        func() interface{} { return C16Custom{X: 3, Y: 4} },
+	"registered-custom-in-map": func() interface{} { return map[string]interface{}{"c": C16Custom{X: 3, Y: 4}, "r": &C16Rec{A: 9}} },
+}
+var c16RegisteredNames = []string{"registered-record", "registered-record-slice", "registered-custom", "registered-custom-in-map"}
 
 func genC16(t *rapid.T, ctx *Ctx) interface{} {
 	c := &C16Case{Kind: rapid.SampledFrom(c16Kinds).Draw(t, "kind"), MaxDoc: rapid.SampledFrom([]int{60, 150, 400, 5000}).Draw(t, "maxdoc"),
@@ -68,7 +94,11 @@ func genC16(t *rapid.T, ctx *Ctx) interface{} {
 		switch c.Kind {
 		case "cbe-marshaler", "cte-marshaler":
 			if rapid.IntRange(0, 3).Draw(t, "special") == 0 {
-				op.Special = rapid.SampledFrom(c07ValueNames).Draw(t, "sv")
+				if rapid.IntRange(0, 3).Draw(t, "registered") == 0 {
+					op.Special = rapid.SampledFrom(c16RegisteredNames).Draw(t, "rv")
+				} else {
+					op.Special = rapid.SampledFrom(c07ValueNames).Draw(t, "sv")
+				}
 			} else {
 				o := valOpts(ctx)
 				avoidVal(o, "S4-edge-iterator-no-end")
@@ -88,6 +118,8 @@ func genC16(t *rapid.T, ctx *Ctx) interface{} {
 				// the same document once more: identifiers (markers, record types) defined by an earlier
 				// document must be free again
 				op.Events = ev.Clone(c.Ops[i-1].Events)
+			} else if rapid.IntRange(0, 4).Draw(t, "listdoc") == 0 {
+				op.Events = c16ListDoc(t)
 			} else if rapid.IntRange(0, 3).Draw(t, "keydoc") == 0 {
 				op.Events = c16KeyDoc(t)
 			} else {
@@ -113,7 +145,49 @@ func genC16(t *rapid.T, ctx *Ctx) interface{} {
 // whose builder generation fails half-way (what a failed generation leaves in the instance's builder
 // session must not affect the next call)
 var c16Templates = []string{"nil", "nil", "nil", "[]interface", "map[iface]", "struct", "[]int", "chan", "struct-chan", "map-func",
+	"[4]int", "[4]int", "[2]string", "[][2]string", "struct-with-arrays",
 	"list", "*list", "self-chan", "*self-chan", "[]self-chan", "map-self-chan", "self-chan-before", "*self-chan-before", "self-containers-func", "[]self-containers"}
+
+// c16ListDoc draws a small document that fits the fixed-size-array templates: a list of 0-5 small integers or
+// short strings, a list of such lists, or a map {"a": list, "s": list}. Lists of different lengths into the
+// same [N]T destination show whether anything of an earlier build is left in a later one.
+func c16ListDoc(t *rapid.T) []ev.Event {
+	str := func(s string) ev.Event {
+		return ev.Event{K: ev.Array, AT: events.ArrayTypeString, U: uint64(len(s)), Bs: []byte(s)}
+	}
+	strs := rapid.Bool().Draw(t, "lstrs")
+	list := func() []ev.Event {
+		out := []ev.Event{{K: ev.List}}
+		for i, n := 0, rapid.IntRange(0, 5).Draw(t, "ln"); i < n; i++ {
+			if strs {
+				out = append(out, str(rapid.SampledFrom([]string{"a", "b", "cc", "ddd"}).Draw(t, "ls")))
+			} else {
+				out = append(out, ev.Event{K: ev.Int, I: int64(rapid.IntRange(1, 9).Draw(t, "li"))})
+			}
+		}
+		return append(out, ev.Event{K: ev.End})
+	}
+	evs := []ev.Event{{K: ev.BD}, {K: ev.Version}}
+	switch rapid.IntRange(0, 3).Draw(t, "lshape") {
+	case 0, 1:
+		evs = append(evs, list()...)
+	case 2:
+		evs = append(evs, ev.Event{K: ev.List})
+		for i, n := 0, rapid.IntRange(0, 3).Draw(t, "lln"); i < n; i++ {
+			evs = append(evs, list()...)
+		}
+		evs = append(evs, ev.Event{K: ev.End})
+	default:
+		evs = append(evs, ev.Event{K: ev.Map}, str("a"))
+		strs = false
+		evs = append(evs, list()...)
+		evs = append(evs, str("s"))
+		strs = true
+		evs = append(evs, list()...)
+		evs = append(evs, ev.Event{K: ev.End})
+	}
+	return append(evs, ev.Event{K: ev.ED})
+}
 
 var c16KeyTexts = []string{"a", "ab", "abc", "b", "bc", "c", "xy", "xyz", "z", "aé", "é", "éz"}
 
@@ -268,7 +342,9 @@ func (in *c16Instance) apply(op *C16Op, first bool) (res c16Result) {
 	switch {
 	case in.m != nil:
 		var v interface{}
-		if op.Special != "" {
+		if f := c16RegisteredValues[op.Special]; f != nil {
+			v = f()
+		} else if op.Special != "" {
 			v = c07Values[op.Special]()
 		} else {
 			v = gen.Build(op.Type, op.Val).Interface()
